@@ -313,10 +313,10 @@ func ZZ_C20_H3() {
 	if bangs == 1 {
 		refBool = !truthy
 	}
-	if op >= 2 {
-		// equality with a boolean literal is only typed when the operand is a boolean
-		zz.Assume(bangs > 0 || isBool)
-	}
+	// a bare reference to a non-boolean field as operand of a logical or equality operator is
+	// not typed by the documentation: only "does not panic" is demanded there (the value is not
+	// compared)
+	typed := bangs > 0 || isBool
 	var want bool
 	switch op {
 	case 0:
@@ -339,8 +339,8 @@ func ZZ_C20_H3() {
 	}
 	got := e.run("F", t)
 	zz.Cover("nil-field", vi == 0)
-	zz.Assert("field-expression-follows-truthiness-rule", FakeBool(got) == want)
-	if bangs > 0 || op >= 2 {
+	if typed {
+		zz.Assert("field-expression-follows-truthiness-rule", FakeBool(got) == want)
 		_, isb := got.(bool)
 		zz.Assert("boolean-operators-yield-booleans", isb)
 	}
